@@ -52,7 +52,10 @@ def run(ctx):
     nt, ln = (150, 60) if q else (1500, 120)
     for t in range(nt):
         n = rnd.randrange(2, 11)
-        traces.append(links.random_history(ctx, rnd, "h%d" % t, n, rnd.randrange(ln // 2, ln + 1), classes))
+        # every fourth history also passes through save + load now and then: the requests continue on the loaded project
+        traces.append(links.random_history(ctx, rnd, "h%d" % t, n, rnd.randrange(ln // 2, ln + 1), classes,
+                                           p_save=0.06 if t % 4 == 3 else 0.0, variants=("canonical", "always"),
+                                           trailing=rnd.choice([0, 0, 1, 2]) if t % 4 == 3 else 0))
     canaries = []
     for tr in traces[:5]:
         c = links.corrupt(tr, rnd)
